@@ -171,6 +171,7 @@ struct FaultCfg {
 	uint64_t rd_max_delay = 0;
 	uint64_t max_delay = 0;
 	uint64_t dr0 = 0, dr1 = 0; int dr_host = -1;   // drought: every datagram sent by host dr_host in [dr0, dr1) is lost
+	char hold_cmd = 0; uint64_t hold_delay = 0; int hold_dir = 0;   // every DNS datagram in the window whose question starts with this command letter is held back (dir 0: queries, 1: answers, 2: both)
 	bool enabled() const { return t1 > t0 || dr1 > dr0; }
 };
 
